@@ -211,3 +211,191 @@ def backward_slice_exprs(rd: ReachingDefs, stmt: ast.AST, expr: ast.AST, depth: 
                             rec(ds, ds.value, k - 1)
     rec(stmt, expr, depth)
     return out
+
+
+# ====================================================================== origin analysis
+FRESH = "FRESH"
+UNKNOWN = "UNKNOWN"
+
+
+class Origins:
+    """Where may the object denoted by an expression come from?  Tags: 'FRESH' (new object: copy / constructor /
+    literal / arithmetic), ('PARAM', p) (the caller's object), ('VIEW', p) (may share storage with the caller's
+    object: slice / column selection / attribute of it), ('SELF', attr), 'UNKNOWN:<call>'.
+    Flow-sensitive through ReachingDefs; facts about third-party calls come from engine.pdfacts."""
+
+    def __init__(self, fn: ast.AST, rd: Optional[ReachingDefs] = None, fresh_calls: Iterable[str] = (), self_name: str = "self",
+                 call_summary=None):
+        from . import pdfacts
+        self.pd = pdfacts
+        self.fn = fn
+        self.rd = rd or ReachingDefs(fn)
+        self.fresh_calls = set(fresh_calls)
+        self.self_name = self_name
+        self.call_summary = call_summary  # optional: (ast.Call) -> frozenset of tags or None
+        self._memo: Dict[Tuple[int, int], FrozenSet] = {}
+        self._stack: Set[Tuple[int, int]] = set()
+
+    def of(self, e: ast.AST, at: ast.AST) -> FrozenSet:
+        key = (id(e), id(at))
+        if key in self._memo:
+            return self._memo[key]
+        if key in self._stack:
+            return frozenset()
+        self._stack.add(key)
+        try:
+            r = self._of(e, at)
+        finally:
+            self._stack.discard(key)
+        self._memo[key] = r
+        return r
+
+    def _viewify(self, tags: FrozenSet) -> FrozenSet:
+        out = set()
+        for t in tags:
+            if isinstance(t, tuple) and t[0] in ("PARAM", "VIEW"):
+                out.add(("VIEW", t[1]))
+            elif isinstance(t, tuple) and t[0] in ("SELF", "SELFVIEW"):
+                out.add(("SELFVIEW", t[1]))
+            else:
+                out.add(t)
+        return frozenset(out)
+
+    def _of(self, e: ast.AST, at: ast.AST) -> FrozenSet:
+        if isinstance(e, ast.Name):
+            if e.id == self.self_name:
+                return frozenset({("SELF", "")})
+            ds = self.rd.reaching(at, e.id)
+            if not ds:
+                return frozenset({UNKNOWN + ":free:" + e.id})
+            out = set()
+            for d in ds:
+                if d.kind == "param":
+                    out.add(("PARAM", d.name))
+                    continue
+                st = self.rd.def_stmt(d)
+                v = self.rd.value_of(d)
+                if v is not None:
+                    out |= self.of(v, st)
+                elif isinstance(st, ast.AugAssign):
+                    out |= self.of(st.target, st) if not (isinstance(st.target, ast.Name) and st.target.id == e.id) else set()
+                    # x += y keeps x's identity for lists/arrays: union with previous defs of x at st
+                    for d2 in self.rd.reaching(st, e.id):
+                        if d2 is not d and d2.kind == "param":
+                            out.add(("PARAM", d2.name))
+                        elif d2 is not d:
+                            v2 = self.rd.value_of(d2)
+                            if v2 is not None:
+                                out |= self.of(v2, self.rd.def_stmt(d2))
+                    out.add(FRESH) if not out else None
+                elif isinstance(st, (ast.For, ast.AsyncFor)):
+                    out |= self._viewify(self.of(st.iter, st))
+                elif isinstance(st, (ast.With, ast.AsyncWith)):
+                    out.add(FRESH)
+                elif d.kind in ("import", "def", "except"):
+                    out.add(FRESH)
+                else:
+                    us = self.rd.unpack_source(d)
+                    if us is not None:
+                        src = self.of(us[0], st)
+                        # elements of a returned tuple: treat like the call's result
+                        out |= src
+                    else:
+                        out.add(UNKNOWN + ":def:" + d.name)
+            return frozenset(out)
+        if isinstance(e, (ast.Constant, ast.List, ast.Dict, ast.Tuple, ast.Set, ast.ListComp, ast.DictComp, ast.SetComp,
+                          ast.GeneratorExp, ast.BinOp, ast.Compare, ast.UnaryOp, ast.BoolOp, ast.JoinedStr, ast.Lambda)):
+            return frozenset({FRESH})
+        if isinstance(e, ast.IfExp):
+            return self.of(e.body, at) | self.of(e.orelse, at)
+        if isinstance(e, ast.NamedExpr):
+            return self.of(e.value, at)
+        if isinstance(e, ast.Call):
+            f = e.func
+            ftxt = unparse(f)
+            if self.call_summary is not None:
+                r = self.call_summary(e, at)
+                if r is not None:
+                    return frozenset(r)
+            if isinstance(f, ast.Attribute):
+                if f.attr in self.pd.FRESH_METHODS and not (kw_true(e, "inplace")):
+                    if f.attr == "copy" and any(k.arg == "deep" and isinstance(k.value, ast.Constant) and k.value.value is False for k in e.keywords):
+                        return self._viewify(self.of(f.value, at))
+                    return frozenset({FRESH})
+                if ftxt in self.pd.FRESH_FUNCS or ftxt in self.fresh_calls:
+                    return frozenset({FRESH})
+                if f.attr in ("squeeze", "ravel", "reshape", "view", "swapaxes", "asarray", "get_level_values", "__getitem__", "xs", "setdefault"):
+                    return self._viewify(self.of(f.value, at))
+                return frozenset({UNKNOWN + ":" + ftxt})
+            if ftxt in self.pd.FRESH_FUNCS or ftxt in self.fresh_calls:
+                return frozenset({FRESH})
+            if ftxt in ("np.asarray", "np.asanyarray", "np.ravel", "np.atleast_1d", "np.atleast_2d", "iter", "reversed"):
+                return self._viewify(self.of(e.args[0], at)) if e.args else frozenset({FRESH})
+            return frozenset({UNKNOWN + ":" + ftxt})
+        if isinstance(e, ast.Subscript):
+            return self._viewify(self.of(e.value, at))
+        if isinstance(e, ast.Attribute):
+            base = self.of(e.value, at)
+            if isinstance(e.value, ast.Name) and e.value.id == self.self_name:
+                return frozenset({("SELF", e.attr)})
+            out = set()
+            for t in base:
+                if isinstance(t, tuple) and t[0] in ("PARAM", "VIEW"):
+                    out.add(("VIEW", t[1]))
+                elif isinstance(t, tuple) and t[0] in ("SELF", "SELFVIEW"):
+                    out.add(("SELFVIEW", t[1]))
+                else:
+                    out.add(t)
+            return frozenset(out)
+        if isinstance(e, ast.Starred):
+            return self.of(e.value, at)
+        if isinstance(e, ast.Await):
+            return self.of(e.value, at)
+        return frozenset({UNKNOWN})
+
+
+def kw_true(c: ast.Call, name: str) -> bool:
+    return any(k.arg == name and isinstance(k.value, ast.Constant) and k.value.value is True for k in c.keywords)
+
+
+def inplace_stores(fn: ast.AST) -> List[Tuple[ast.AST, ast.AST, str]]:
+    """(statement, receiver expression whose storage is written, kind) for every in-place store in fn:
+    subscript/attribute assignment, augmented assignment to such a target, del x[...], inplace=True calls,
+    mutating method calls (append/extend/..., estimator.fit)."""
+    from . import pdfacts
+    out = []
+    for s in walk_no_nested(fn):
+        if not isinstance(s, ast.stmt):
+            continue
+        tgts = []
+        if isinstance(s, ast.Assign):
+            for t in s.targets:
+                tgts += _flatten_target(t)
+        elif isinstance(s, ast.AugAssign):
+            tgts = [s.target]
+        elif isinstance(s, ast.AnnAssign) and s.value is not None:
+            tgts = [s.target]
+        elif isinstance(s, ast.Delete):
+            tgts = list(s.targets)
+        for t in tgts:
+            if isinstance(t, ast.Subscript):
+                recv = t.value
+                if isinstance(recv, ast.Attribute) and recv.attr in ("loc", "iloc", "at", "iat"):
+                    recv = recv.value
+                out.append((s, recv, "setitem"))
+            elif isinstance(t, ast.Attribute):
+                out.append((s, t.value, "setattr:" + t.attr))
+        for e in _own_exprs(s):
+            for c in ast.walk(e):
+                if isinstance(c, ast.Call) and isinstance(c.func, ast.Attribute):
+                    if kw_true(c, "inplace") and c.func.attr in pdfacts.INPLACE_KW_METHODS:
+                        out.append((s, c.func.value, "inplace:" + c.func.attr))
+                    elif c.func.attr in pdfacts.MUTATING_METHODS and isinstance(fn_parent_stmt_value(s), ast.Call) and fn_parent_stmt_value(s) is c:
+                        out.append((s, c.func.value, "mutcall:" + c.func.attr))
+    return out
+
+
+def fn_parent_stmt_value(s: ast.AST):
+    if isinstance(s, ast.Expr):
+        return s.value
+    return None
